@@ -370,7 +370,26 @@ fn run_case(case: &Case, drv: &mut Driver, rep: &mut Report) -> Vec<(String, Str
     let mut fails = vec![];
     let fmt = case.fmt;
     let book = wb::gen_book_rich(&mut Rng::new(case.gen_seed), fmt, 3, 25);
-    let bytes = wb::write(&book, fmt, &mut Rng::new(case.seed));
+    let mut bytes = wb::write(&book, fmt, &mut Rng::new(case.seed));
+    // container variants the format readers accept and auto-detection therefore has to accept as well: a zip
+    // archive behind leading bytes (a self-extracting stub, a mail header). Only kept when the format's own reader
+    // opens the variant; the case then runs through auto-detection.
+    if case.auto && fmt != Fmt::Xls && case.seed % 4 == 0 {
+        let mut r = Rng::new(case.seed ^ 0x57ab);
+        let k = *r.pick(&[1usize, 2, 4, 7, 64, 512, 4096, 70_000]);
+        let mut wrapped: Vec<u8> = match r.below(3) {
+            0 => b"#!/bin/sh\nexit 0\n".iter().cycle().take(k).cloned().collect(),
+            1 => vec![0u8; k],
+            _ => r.bytes(k),
+        };
+        wrapped.extend_from_slice(&bytes);
+        if wb::open(wrapped.clone(), fmt).is_ok() {
+            rep.count(&format!("{}.leading-bytes-before-zip", fmt.name()));
+            bytes = wrapped;
+        } else {
+            rep.count(&format!("{}.leading-bytes-rejected-by-format-reader", fmt.name()));
+        }
+    }
     let mut live: AnyBook = if case.auto {
         match open_workbook_auto_from_rs(Cursor::new(bytes.clone())) {
             Ok(w) => w,
